@@ -5,10 +5,10 @@ from hc_oracles import timeout_oracle, ep_crash_oracle, server_disconnect_oracle
 
 PROP = "C10"
 COQ_FILE = "props/C10.v"
-THEOREMS = ['C10_client_timer_semantics', 'C10_rx_refreshes_deadline', 'C10_deadline_counts_from_connect', 'C10_handshake_budget_constants']
+THEOREMS = ['C10_client_timer_semantics', 'C10_rx_refreshes_deadline', 'C10_deadline_counts_from_connect', 'C10_handshake_budget_constants', 'C10_client_handshake_timeout_history', 'C10_client_active_timeout_history', 'C10_client_active_deadline_exact', 'C10_client_closing_timeout_history', 'C10_client_no_other_timeout']
 USES_FLOATS = True
 NEEDS_RELEASE = False
-ASSUMPTIONS = ['proved for the Client model: exact timer semantics, deadline refresh on every handled frame, first deadline from handshake completion; server timers, keepalive sufficiency and promptness over whole histories are decided by the timers/lifecycle streams (virtual clock) with the timeout oracle and the correspondence (partial)']
+ASSUMPTIONS = ['proved for the Client model over whole histories (TimeoutHistory.v): handshake Error(Timeout) no earlier than 22 s after connect() and after ten resends; active Error(Timeout) only if every step with a data/sync/ack frame (and the Connect step) lies at least active_timeout back, deadline exactly active_timeout after a step with a frame from the server, silent step at/past it reports; disconnect Error(Timeout) no earlier than 22 s after the first Disconnect request; no timeout in other phases; plus exact per-step timer semantics. Server timers and keepalive sufficiency over whole histories are decided by the timers/lifecycle streams (virtual clock) with the timeout oracles and the correspondence (partial)']
 THEOREM_STATEMENTS = []
 QUICK = {"lifecycle": 40, "forge": 60, "limits": 60, "amplify": 60, "timers": 50}
 
